@@ -436,7 +436,7 @@ public:
   friend constexpr blocking_kind
   tag_invoke(tag_t<unifex::blocking>, const type& s) noexcept {
     // get the runtime blocking_kind for the predecessor
-    blocking_kind pred = blocking(s.source_);
+    blocking_kind pred = unifex::blocking(s.source_);
     // we have to go with the static result for the successors since we don't
     // know how pred_ will complete
     blocking_kind succ =
